@@ -1,9 +1,9 @@
 CONSTANTS Urls <- UrlsC
           Texts <- TextsC
           MaxMsgs = 4
-          MaxInFlight = 3
+          MaxInFlight = 1
           VersionGuard = FALSE
-          RefreshFromMemory = TRUE
+          RefreshFromMemory = FALSE
 INIT LInit
 NEXT LNext
 INVARIANTS LastWordUnlessOverlapped
